@@ -20,7 +20,7 @@ strata     = A  every initial state x the FULL event menu (depth 1)
                 event x {mutate the derived text, mutate the original}: the other
                 side must stay observably unchanged (keys alias/<derive>/<mutate>/
                 original-changed | derived-changed)
-             D  16 hand-picked diverse seeds, CORE menu, BFS to depth 4 (quick) /
+             D  17 hand-picked diverse seeds, CORE menu, BFS to depth 4 (quick) /
                 5 and 6 (thorough), then deterministic chain extensions of the
                 deepest states up to history length 12
 finding key = <event>/<argument class>/<symptom>; when the text already carried a
@@ -82,15 +82,18 @@ ARGS = {
     "E": {"k": "text", "s": "", "base": "italic", "spans": []},
     "D": {"k": "text", "s": "-", "base": "italic", "spans": [[0, 1, "blue"]]},
     "N": {"k": "text", "s": "", "base": "", "spans": []},
+    # base style AND an own span that sets the same attribute to another value (the span must win),
+    # next to base-only (E), span-only (Q) and base+compatible span (P)
+    "C": {"k": "text", "s": "cd", "base": "red", "spans": [[0, 1, "blue"]]},
 }
 
 # ---------------------------------------------------------------------------- event menus
 FULL = [
     ["append", "x", None], ["append", "y", "red"], ["append", "\x08z", "blue"], ["append", "\x08", "red"],
     ["append", "あ", "bold"],
-    ["append_T", "P"], ["append_T", "E"], ["append_text", "Q"], ["append_text", "E"],
+    ["append_T", "P"], ["append_T", "E"], ["append_T", "C"], ["append_text", "Q"], ["append_text", "E"], ["append_text", "C"],
     ["append_tokens", [["t", "red"], ["u", None]]],
-    ["add", "s:x"], ["add", "P"],
+    ["add", "s:x"], ["add", "P"], ["add", "C"], ["rappend", "C"], ["radd", "C"], ["assemble", ["@", {"arg": "C"}, {"arg": "Q"}], ""],
     ["rappend", "P"], ["rappend_text", "Q"], ["radd", "E"], ["assemble", ["@", ["x", "red"], "y"], "italic"],
     ["stylize", "red", 0, None], ["stylize", "red", 1, 3], ["stylize", "red", -1, None], ["stylize", "red", -9, 1],
     ["stylize", "blue", 0, -1], ["stylize", "blue", 1, 99], ["stylize", "blue", -9, None], ["stylize", "blue", 2, 1],
@@ -116,7 +119,8 @@ FULL = [
     ["split", "\n", False, False], ["split", "\n", True, False], ["split", "\n", False, True], ["split", "\n", True, True],
     ["split", " ", False, False], ["split", " ", True, False], ["split", " ", False, True],
     ["divide", [1]], ["divide", [0]], ["divide", [1, 3]], ["divide", [2, 2]], ["divide", [9]],
-    ["join_sep", ["P", "Q"]], ["join_elem", "D", ["@", "P"]], ["join_elem", "D", ["P", "@"]], ["join_elem", "N", ["@", "@"]],
+    ["join_sep", ["P", "Q"]], ["join_sep", ["C", "C"]], ["join_elem", "D", ["@", "P"]], ["join_elem", "D", ["P", "@"]],
+    ["join_elem", "N", ["@", "@"]], ["join_elem", "C", ["C", "@", "Q"]],
     ["fit", 2], ["fit", 5],
     ["hl_words", ["a", "x"], "blue", True], ["hl_words", ["A"], "red", False],
     ["hl_regex", "a+|\\s", "bold", ""], ["hl_regex", "(?P<red>a)(?P<blue>.)?", None, ""],
@@ -124,7 +128,7 @@ FULL = [
 ]
 
 CORE = [
-    ["append", "\x08z", "blue"], ["append_T", "P"], ["rappend", "P"], ["append", "(1", None],
+    ["append", "\x08z", "blue"], ["append_T", "P"], ["append_T", "C"], ["rappend", "P"], ["append", "(1", None],
     ["stylize", "red", 1, 3], ["stylize", "blue", -1, None], ["stylize", "bold", -9, 2],
     ["pad_left", 1, " "], ["pad", 1, "-"],
     ["truncate", 2, "ellipsis", False], ["truncate", 4, "crop", True],
@@ -153,6 +157,7 @@ SEEDS = [
     {"k": "text", "s": "a", "base": "", "spans": []},
     {"k": "text", "s": "ああ", "base": "", "spans": [[1, 2, "red"]]},
     {"k": "text", "s": "a \n", "base": "", "spans": [[0, 3, "blue"], [1, 2, "red"]]},
+    {"k": "text", "s": "a\tb", "base": "red", "spans": [[0, 2, "blue"], [1, 3, "bold"]]},
 ]
 
 _CON = None
@@ -267,7 +272,8 @@ def apply_real(t, ev):
     elif k == "radd":
         return [build_real(ARGS[ev[1]]) + t]
     elif k == "assemble":
-        return [Text.assemble(*[t if p == "@" else (p if isinstance(p, str) else (p[0], p[1])) for p in ev[1]],
+        return [Text.assemble(*[t if p == "@" else build_real(ARGS[p["arg"]]) if isinstance(p, dict) else
+                                (p if isinstance(p, str) else (p[0], p[1])) for p in ev[1]],
                               style=ev[2])]
     elif k == "stylize":
         t.stylize(ev[1], ev[2], ev[3])
@@ -346,7 +352,8 @@ def apply_ref(r, ev, observed=None):
         x.append_ref(r)
         return [x]
     elif k == "assemble":
-        return [RefText.assemble([r if p == "@" else (p if isinstance(p, str) else (p[0], STY[p[1]])) for p in ev[1]],
+        return [RefText.assemble([r if p == "@" else build_ref(ARGS[p["arg"]]) if isinstance(p, dict) else
+                                  (p if isinstance(p, str) else (p[0], STY[p[1]])) for p in ev[1]],
                                  STY[ev[2]])]
     elif k == "stylize":
         r.stylize(STY[ev[1]], ev[2], ev[3])
@@ -971,7 +978,11 @@ def _span_sets(n, maxspans):
                 yield [s1, s2]
 
 
-def inits_for_string(s, maxspans, bases=("", "italic"), other_ctors=True):
+# base alphabet: none, an attribute no span touches (italic), and a colour the spans {red, blue} conflict with
+BASES = ("", "italic", "red")
+
+
+def inits_for_string(s, maxspans, bases=BASES, other_ctors=True):
     n = len(strip_control(s))
     for base in bases:
         for spans in _span_sets(n, maxspans):
@@ -986,6 +997,9 @@ def inits_for_string(s, maxspans, bases=("", "italic"), other_ctors=True):
             if cut:
                 yield {"k": "assemble", "parts": [{"k": "text", "s": s[:cut], "base": "blue", "spans": []},
                                                   [s[cut:], None]], "base": base}
+                if strip_control(s[:cut]):      # a Text part whose own span conflicts with its own base
+                    yield {"k": "assemble", "parts": [{"k": "text", "s": s[:cut], "base": "red", "spans": [[0, 1, "blue"]]},
+                                                      {"k": "text", "s": s[cut:], "base": "blue", "spans": []}], "base": base}
 
 
 def _stratum_inits(name, tier):
@@ -1079,8 +1093,12 @@ def describe(tier, seed, res):
     quick = tier == "quick"
     return {
         "rule": ("Stratum A: every initial state (strings <=%s over {a, U+3042, space, tab, newline, U+0008, U+0301} x ordered "
-                 "span sets of <=2 spans over {red, blue} x base {none, italic}, built through Text(), Text.styled, "
-                 "Text.assemble, Text.from_markup) x each of the %d events of the FULL menu. Stratum B: %s x FULL x FULL "
+                 "span sets of <=2 spans over {red, blue} x base {none, italic, red: red conflicts with the blue spans}, built through Text(), Text.styled, "
+                 "Text.assemble (string, (string, style) and Text parts, among them a Text whose own span conflicts with its own "
+                 "base), Text.from_markup) x each of the %d events of the FULL menu. Operand Texts of the composing events "
+                 "(append, append_text, +, reversed forms, assemble, join) are: base-only, span-only, base + compatible span, "
+                 "and base + conflicting span (red base, blue span: the span must win); every character's effective style "
+                 "(base < spans in order) is compared with the RefText. Stratum B: %s x FULL x FULL "
                  "(all histories of length 2, dedup). Stratum D: BFS with the %d-event CORE menu to depth %s from %d "
                  "hand-picked seeds; then the deepest level is partitioned into structural classes, up to %d states are "
                  "taken round-robin over the classes per shard and each is extended by one chain per menu rotation up to "
